@@ -156,3 +156,19 @@ MUTANTS += [
     M("c17-r4-revert-close-order", "C17", "C17.R4", TCP, "\t\t\t// the connection is closed by connAborter at the end, after the sink\n", "\t\t\tconnAborter.Signal()\n", "client disconnects and reconnects while the old sink is still flushing: original defect D21 (also a double Signal)", more=[(TCP, "\tdefer connAborter.Signal()\n\n", "\n")]),
     M("c17-r5-foreign-slot-write", "C17", "C17.R5", REL, "\torc.downstream.Shutdown()\n}\n", "\torc.downstream.Shutdown()\n\torc.downstreamSinks[0] = nil\n}\n", "a slot cleared behind the back of its connection"),
 ]
+
+FFCW = "output/fluentdforward/clientworker.go"
+
+MUTANTS += [
+    # ---------------- C18
+    M("c18-r1-plain-send-in-flush", "C18", "C18.R1", CIB, "\tselect {\n\tcase cache.Channel <- reusableLogBuffer:\n\t\t// TODO: update metrics\n\tcase <-time.After(defs.IntermediateChannelTimeout):\n\t\tparentLogger.Errorf(\"BUG: timeout flushing: %d records for %s. stack=%s\", len(reusableLogBuffer), loggingKey, util.Stack())\n\t}",
+      "\tcache.Channel <- reusableLogBuffer\n\t_, _, _ = defs.IntermediateChannelTimeout, util.Stack, parentLogger", "a pipeline whose worker is blocked (stalled output): the connection goroutine and with it shutdown hang"),
+    M("c18-r1-no-abort-case-in-feeder", ["C18"], "C18.R1", FEED, "\tcase <-feeder.inputClosed.Channel():\n\t\treturn false\n\t}", "\t}", "Destroy while the output window is full and the consumer stalled", more=[(FEED, "\tselect {\n\tcase feeder.outputChannel <- chunk: // wait forever here, this ultimately causes chunks to bufferer to be unloaded\n\t\treturn true\n", "\tselect {\n\tcase feeder.outputChannel <- chunk: // wait forever here, this ultimately causes chunks to bufferer to be unloaded\n\t\treturn !feeder.inputClosed.Peek()\n")]),
+    B("c18-r1-benign-timer", "C18", CIB, "\tcase <-time.After(defs.IntermediateChannelTimeout):\n", "\tcase <-timer.C:\n", more=[(CIB, "\t// Send with timeout; There is enough buffering to make on-demand timer allocations trivial.\n", "\ttimer := time.NewTimer(defs.IntermediateChannelTimeout)\n\tdefer timer.Stop()\n")]),
+    M("c18-r2-no-abort-on-stop", "C18", "C18.R2", CW, "\tclient.inputClosed.Next(func() {\n\t\tsess := client.activeSession.Load()\n\t\tif sess != nil {\n\t\t\tsess.Abort(func() {\n\t\t\t\tclient.logger.Info(\"abort ongoing connection due to stop request\")\n\t\t\t})\n\t\t}\n\t})\n", "", "stop while a write to a stalled upstream is blocked for its full deadline (minutes)"),
+    M("c18-r3-zero-ack-deadline", "C18", "C18.R3", SESS, "session.conn.ReadChunkAck(time.Now().Add(defs.ForwarderBatchAckTimeout))", "session.conn.ReadChunkAck(time.Time{})", "upstream accepts but never answers: the acknowledger never times out"),
+    M("c18-r3-no-write-deadline", "C18", "C18.R", FFCW, "\tif err := fconn.socket.SetWriteDeadline(deadline); err != nil {\n\t\treturn fmt.Errorf(\"failed to set send timeout: %s, %w\", chunk.String(), err)\n\t}\n\n\tif err := writeAll(fconn.socket, chunk.Data); err != nil {", "\t_ = deadline\n\tif err := writeAll(fconn.socket, chunk.Data); err != nil {", "upstream blocked mid-write"),
+    M("c18-r4-wait-before-close", "C18", "C18.R4", BUF, "\tclose(buf.inputChannel)\n\tbuf.inputClosed.Signal()\n\n\tbuf.logger.Infof(\"waiting for feeder: in=%d out=%d\", len(buf.inputChannel), buf.feeder.NumOutput())\n\tif !buf.feeder.Stopped().Wait(runTimeout) {\n\t\tbuf.logger.Errorf(\"BUG: couldn't stop feeder in time. stack=%s\", util.Stack())\n\t}",
+      "\tbuf.logger.Infof(\"waiting for feeder: in=%d out=%d\", len(buf.inputChannel), buf.feeder.NumOutput())\n\tif !buf.feeder.Stopped().Wait(runTimeout) {\n\t\tbuf.logger.Errorf(\"BUG: couldn't stop feeder in time. stack=%s\", util.Stack())\n\t}\n\tclose(buf.inputChannel)\n\tbuf.inputClosed.Signal()", "every shutdown waits the full timeout and then leaves chunks unsaved"),
+    M("c18-r6-double-signal", "C18", "C18.R6", FEED, "func (feeder *outputFeeder) Run() {\n", "func (feeder *outputFeeder) Run() {\n\tdefer feeder.stopped.Signal()\n", "every shutdown: close of closed channel panics after the chunks were saved"),
+]
